@@ -1264,7 +1264,7 @@ Lemma decorate_spec st s p :
   | VAbort a => False
   end.
 Proof.
-  unfold decorate. destruct (existsb _ _); cbn [fst snd].
+  unfold decorate. destruct (negb _ || existsb _ _); cbn [fst snd].
   { repeat split; auto. }
   set (st1 := set_decs st _).
   set (f := fun c => sc_set_decorators _ c).
